@@ -282,7 +282,22 @@ func cmdCheck(id, tier string, writeBaseline, verbose bool) int {
 			}
 			fn := findFunction(eng.prog, sp, parts[1])
 			if fn == nil {
-				cr.errors = append(cr.errors, "function under contract not found: "+fkey)
+				// a function whose obligations are in the baseline disappeared: its proved obligations are lost
+				short := parts[0][strings.LastIndex(parts[0], "/")+1:] + "." + parts[1]
+				nBase := 0
+				for n := range loadBaseline(id) {
+					if strings.HasPrefix(n, short+"#") {
+						nBase++
+					}
+				}
+				if nBase > 0 && !gSelftest {
+					p := filepath.Join(outDir, "replay_"+sanitizeFile(short)+"--missing.txt")
+					os.WriteFile(p, []byte(fmt.Sprintf("property: %s\nfunction: %s\n%d obligations of this function were discharged on the baseline; the function no longer exists, so the contract it carried (and that its callers rely on) is no longer established\n", id, fkey, nBase)), 0o644)
+					cr.lost = append(cr.lost, fmt.Sprintf("VIOLATION property=%s replay=%s no-failing-input-found", id, p))
+					fmt.Printf("FAILED %d baseline obligations of %s can no longer be established: function removed or renamed\n", nBase, fkey)
+				} else {
+					cr.errors = append(cr.errors, "function under contract not found: "+fkey)
+				}
 				continue
 			}
 			fc := eng.cs.Funcs[pkgPath+"#"+parts[1]]
